@@ -16,7 +16,10 @@ SUITE=ok
 for d in $TOUCH; do
   if [ "$d" = "." ]; then
     if [ -z "$SKIP_ROOT" ]; then
-      go test -count=1 -vet=off -timeout 25m ${TAGS:+-tags $TAGS} . > $M/m$N.root.log 2>&1 || SUITE="root-suite-FAILED"
+      # root suite in a private network namespace (fixed ports collide with other jobs); NIC-dependent tests skipped
+      go test -c -vet=off ${TAGS:+-tags $TAGS} -o /tmp/gnet_confirm_$P.test . && \
+      unshare -n sh -c "ip link set lo up; cd $WT && /tmp/gnet_confirm_$P.test -test.count=1 -test.timeout 25m -test.skip 'TestServeMulticast|TestMulticastBind|TestBindToDevice'" > $M/m$N.root.log 2>&1 || SUITE="root-suite-FAILED"
+      rm -f /tmp/gnet_confirm_$P.test
     else SUITE="$SUITE(root suite skipped)"; fi
   else
     go test -count=1 -vet=off ./$d/... > $M/m$N.pkg.log 2>&1 || SUITE="pkg-suite-FAILED($d)"
